@@ -15,6 +15,9 @@ KNOWN_SIGNATURES = [
     # base add_cell's check reads it as halfface 1 (face_handle(-1) == 0, odd) and, when that happens to close the
     # surface, stores a cell containing -1 (without face incidences) / indexes incident_cell_per_hf_[-1] (with).
     ("C16", "AddC", "model UB / library crash in the re-ordering path of the topology-checked hex add_cell"),
+    # C16: the same call accepts (through the re-ordering path) six quads that close up to a sphere which is not a cube and stores
+    # them in an order that violates the convention (first two halffaces share a vertex); hex_vertices then repeats a vertex.
+    ("C16", "AddC", "checked hex add_cell accepts a closed six-quad surface that is not a hexahedron (model agrees)"),
     # C15: the topology-checked TetrahedralMeshTopologyKernel::add_cell(halffaces) accepts four triangles that are not a
     # tetrahedron (two "pillows": six vertices); get_cell_vertices then returns {} and get_cell_vertices(c, v),
     # halfface_opposite_vertex, the tet vertex iterator index that empty vector.
@@ -137,6 +140,17 @@ AddVs 12
 @AddFV 3 0 4 7
 @AddFV 8 9 10 11
 @AddC 1 5 7 9 11 3 12""",
+    # the witness of C16_checked_add_cell_layout_refuted: six quads closing up to a sphere that is not a cube
+    "hex-non-cube-accepted": """Mesh hex
+AddVs 8
+@AddFV 0 1 2 3
+@AddFV 1 0 4 5
+@AddFV 2 1 5 6
+@AddFV 3 2 6 7
+@AddFV 6 0 3 7
+@AddFV 5 4 0 6
+@AddC 1 0 2 4 6 8 10
+QHexAll""",
     "hex-rejected-adds": """Mesh hex
 AddVs 10
 @AddE 0 1 0
@@ -380,14 +394,16 @@ def check_C15(ctx):
         "+ surviving handle when the link condition holds.  distinct_nontrivial = distinct scripts (text hash) that executed with "
         "Ok at least one tet construction / collapse / deletion / query operation on a mesh that already has a cell")
     ctx.assumptions += [
-        "tet_shape is proved invariant for additions in every form (accepted or rejected), deferred-mode deletions and collapses, mode "
-        "switches, clear and property operations; steps that physically remove entities (immediate deletion, garbage collection, "
-        "collapse in immediate mode) rest on the kernel's C02 invariants and are covered by lock step + the impl-side valence scan only",
+        "tet_shape is proved invariant for additions in every form (accepted or rejected), every deletion / garbage collection / "
+        "collapse in deferred or fast mode, index swaps, mode switches, clear and property operations; physical removal in SLOW "
+        "immediate mode (keeps the lengths only by the kernel's C02 closure property) and set_face / set_cell are outside the "
+        "theorem and covered by lock step + the impl-side valence scan only",
         "'every cell has four distinct vertices' is refuted (C15_four_distinct_vertices_refuted: the topology-checked add_cell "
         "accepts two pillows, replayed on the library in corpus script tet-two-pillows); query contracts are proved under the "
         "explicit hypothesis tet_wf (well-formed tetrahedron)",
-        "collapse_edge: shape + returned handle proved in deferred mode; the cell-set characterisation and the immediate modes "
-        "are carried by the correspondence and the brute-force oracle (C15_collapse_partial)",
+        "collapse_edge: shape proved in deferred and in immediate fast mode, returned handle in deferred mode; the cell-set "
+        "characterisation, the returned handle in the immediate modes and the slow immediate mode are carried by the "
+        "correspondence and the brute-force oracle (C15_collapse_partial, C15_collapse_immediate_fast_partial)",
         "TetTopology: label algebra decided over the whole label domains on the regenerated functions; the constructor is "
         "decided on concrete glued tets and checked in lock step + by the name-based oracle, not proved for every mesh",
     ]
@@ -437,8 +453,8 @@ def check_C16(ctx):
         "distinct_nontrivial = distinct scripts that executed with Ok at least one hex construction / deletion / query on a mesh "
         "that already has a cell")
     ctx.assumptions += [
-        "hex_shape is proved invariant for the same class of histories as C15 (additions in every form, deferred-mode deletions, "
-        "mode switches, clear, property operations); physical removal rests on the kernel's C02 invariants + lock step + valence scan",
+        "hex_shape is proved invariant for the same class of histories as C15 (everything except physical removal in slow "
+        "immediate mode and set_face / set_cell, which rest on the kernel's C02 invariants + lock step + valence scan)",
         "checked add_cell: case analysis proved for every state and list; 'accepted => layout' is proved for the direct path as "
         "'the stored list passes the library's ordering check', decided for all 720 orderings of the canonical cube, and carried "
         "by lock step + the definition-based layout oracle for other meshes (C16_layout_direct_path_partial)",
